@@ -60,8 +60,8 @@ type vC19priv struct {
 	pub *vC19key
 }
 
-func (p *vC19priv) GetPublic() crypto.PubKey       { return p.pub }
-func (p *vC19priv) Sign(b []byte) ([]byte, error)  { return []byte("sig-by-" + p.pub.name), nil }
+func (p *vC19priv) GetPublic() crypto.PubKey      { return p.pub }
+func (p *vC19priv) Sign(b []byte) ([]byte, error) { return []byte("sig-by-" + p.pub.name), nil }
 
 type vC19rand struct{}
 
@@ -114,7 +114,7 @@ func VerifC19aServer() {
 	now := vRange64(1<<40, 1<<60)
 	vC19install(time.Unix(0, now))
 	serverKey := &vC19key{name: "server"}
-	kA := &vC19key{name: "ABC", okAnswer: vBool(), errAns: vBool()} // the key named by the public-key parameter (base64 of "ABC")
+	kA := &vC19key{name: "ABC", okAnswer: vBool(), errAns: vBool()}   // the key named by the public-key parameter (base64 of "ABC")
 	kB := &vC19key{name: "bound", okAnswer: vBool(), errAns: vBool()} // the key bound into the opaque state
 	vC19keys = map[string]*vC19key{"ABC": kA, "bound": kB}
 	// which parameters the request carries
